@@ -93,8 +93,9 @@ class Registry:
         if cur is not None:
             if fi.qualname in cur.inline:
                 return None
-            if con is cur and eng.depth == 0:
-                return None
+            if con is cur and eng.depth == 0 and not cur.attrs.get('recursive'):
+                return None    # (contracts declaring `recursive = True` use their own contract at the recursive call:
+                #                partial correctness, termination is not an obligation of the engine)
         if eng.mode == SPEC and not con.pure:
             return None
         return con
@@ -199,6 +200,10 @@ class Registry:
         return v
 
     def sum_symbolic(self, eng, v, start, line):
+        if isinstance(start, ConstSeq) and not start.items and isinstance(v, ValuesView) and v.what == 'values' \
+                and isinstance(v.d.vty, TList):
+            from . import seqs
+            return seqs.flatten_values(eng, v.d, line)
         self._unsup('sum() over symbolic collection (give the enclosing function a contract)', line)
 
     def sorted_symbolic(self, eng, args, kw, line):
